@@ -66,6 +66,22 @@ def initialize(i=1, root=ROOT, by="rootPath", extra=None):
     return req(i, "initialize", p)
 
 
+# what a full-featured client announces (a server may react to any of it, e.g. register for events)
+FULL_CAPABILITIES = {
+    "workspace": {"applyEdit": True, "configuration": True, "workspaceFolders": True,
+                  "didChangeConfiguration": {"dynamicRegistration": True},
+                  "didChangeWatchedFiles": {"dynamicRegistration": True, "relativePatternSupport": True},
+                  "symbol": {"dynamicRegistration": True}, "executeCommand": {"dynamicRegistration": True}},
+    "textDocument": {"synchronization": {"dynamicRegistration": True, "willSave": True, "didSave": True},
+                     "completion": {"dynamicRegistration": True, "completionItem": {"snippetSupport": True}},
+                     "hover": {"dynamicRegistration": True, "contentFormat": ["markdown", "plaintext"]},
+                     "publishDiagnostics": {"relatedInformation": True, "versionSupport": True},
+                     "definition": {"dynamicRegistration": True, "linkSupport": True}},
+    "window": {"workDoneProgress": True, "showMessage": {}, "showDocument": {"support": True}},
+    "general": {"positionEncodings": ["utf-16"]},
+}
+
+
 def initialized():
     return note("initialized", {})
 
